@@ -205,12 +205,19 @@ class DenseOutput(object):
     def find_interval(self, t):
         if self.t_eval is None:
             raise ValueError("No interpolant has been added and time interval is not defined!")
+        if len(self.t_eval) > 1 and self.t_eval[-1] < self.t_eval[0]:
+            # pieces of a backward run: end times decrease in insertion order
+            return min(deutil.search_bisection(-self.t_eval_arr, -t), len(self.y_interpolants) - 1)
         return min(deutil.search_bisection(self.t_eval, t), len(self.y_interpolants) - 1)
 
     def find_interval_vec(self, t):
         if self.t_eval is None:
             raise ValueError("No interpolant has been added and time interval is not defined!")
-        out = deutil.search_bisection_vec(self.t_eval_arr, t)
+        if len(self.t_eval) > 1 and self.t_eval[-1] < self.t_eval[0]:
+            # pieces of a backward run: end times decrease in insertion order
+            out = deutil.search_bisection_vec(-self.t_eval_arr, -t)
+        else:
+            out = deutil.search_bisection_vec(self.t_eval_arr, t)
         out[out > len(self.y_interpolants) - 1] = len(self.y_interpolants) - 1
         return out
 
@@ -263,12 +270,8 @@ class DenseOutput(object):
                     y_interp(self.t_eval[-1])
                 except:
                     raise
-                if (t - self.t_eval[-1]) < 0:
-                    self.t_eval.insert(0, D.ar_numpy.asarray(t))
-                    self.y_interpolants.insert(0, y_interp)
-                else:
-                    self.t_eval.append(D.ar_numpy.asarray(t))
-                    self.y_interpolants.append(y_interp)
+                self.t_eval.append(D.ar_numpy.asarray(t))
+                self.y_interpolants.append(y_interp)
             if D.autoray.infer_backend(t) == 'torch':
                 self.t_eval = [i.to(D.ar_numpy.asarray(t)) for i in self.t_eval]
             self.__t_eval_arr_stale = True
